@@ -726,6 +726,15 @@ void f_range (int code) {
         from = (--sp)->u.number;
         if (code & 0x10)
           from = v->size - from;
+        if (from < 0)
+          from = 0;
+        if (to >= v->size)
+          to = v->size - 1;
+        if (to < from)
+          {
+            from = 1;
+            to = 0;
+          }
         put_array (slice_array (v, (int)from, (int)to));
         break;
       }
@@ -811,6 +820,10 @@ void f_extract_range (int code) {
         from = (--sp)->u.number;
         if (code)
           from = v->size - from;
+        if (from < 0)
+          from = 0;
+        if (from > v->size)
+          from = v->size;
         put_array (slice_array (v, (int)from, (int)(v->size - 1)));
         break;
       }
